@@ -496,15 +496,34 @@ def check_conversion_map_complete(repo: Repo, res: Result) -> None:
                         rec = T.ctor_class(c_ctx, c_orig)
                     except Exception:  # noqa: BLE001
                         rec = None
-                    if rec is not None and repo.lookup_method(rec, "__init__") is None and not any(isinstance(a, ast.Starred) for a in n.value.args):
+                    if rec is not None and repo.lookup_method(rec, "__init__") is None:
                         fields_ = [a for c_ in reversed(repo.mro(rec)) for a in c_.ann_attrs]
-                        bound_ = {f_: a for f_, a in zip(fields_, n.value.args)}
-                        bound_.update({k.arg: k.value for k in n.value.keywords if k.arg})
-                        for f_, a in bound_.items():
-                            at = norm(a)
-                            for m_, al in aliases.items():
-                                if at in al or (m_.endswith("[1]") and at == m_[:-3]):
-                                    al.add(f"{norm(n.targets[0])}.{f_}")
+                        bound_: dict[str, list[ast.expr]] = {}
+                        i_ = 0
+                        for a in n.value.args:
+                            if isinstance(a, ast.Starred):
+                                # `Record(x, *maps)`: every remaining field holds one element of the starred collection
+                                for f_ in fields_[i_:]:
+                                    bound_.setdefault(f_, []).append(a.value)
+                                break
+                            if i_ < len(fields_):
+                                bound_.setdefault(fields_[i_], []).append(a)
+                            i_ += 1
+                        for k in n.value.keywords:
+                            if k.arg:
+                                bound_.setdefault(k.arg, []).append(k.value)
+                        for f_, as_ in bound_.items():
+                            for a in as_:
+                                at = norm(a)
+                                for m_, al in aliases.items():
+                                    if at in al or (m_.endswith("[1]") and at == m_[:-3]):
+                                        al.add(f"{norm(n.targets[0])}.{f_}")
+            elif isinstance(n, ast.Call) and isinstance(n.func, ast.Attribute) and n.func.attr in ("append", "add", "insert", "appendleft") and n.args and isinstance(n.func.value, (ast.Name, ast.Attribute)):
+                # a map collected into a list (`maps.append(mapping)` once per side of the rule): the list stands for the map
+                at = norm(n.args[-1])
+                for m_, al in aliases.items():
+                    if at in al:
+                        al.add(norm(n.func.value))
 
     def used_params(callee: FuncInfo) -> set[str] | None:
         """Parameters of a helper (not inlined) that contribute to what it returns; None when that cannot be followed."""
@@ -638,6 +657,31 @@ def check_conversion_map_complete(repo: Repo, res: Result) -> None:
             continue
         bad = (expr, missing)
         break
+    def escapes(m_: str) -> ast.Call | None:
+        """The map is handed to a call whose result the analysis did not relate to its arguments (a constructor with an
+        __init__, a library function, a starred argument): it may well arrive in the factory's map through it."""
+        for x in all_nodes(vm):
+            if not isinstance(x, ast.Call) or x is calls[0]:
+                continue
+            args_ = [a.value if isinstance(a, ast.Starred) else a for a in x.args] + [k.value for k in x.keywords]
+            flat_ = [y for a in args_ for y in (a.elts if isinstance(a, (ast.List, ast.Tuple)) else [a])]
+            if not any(norm(a) in aliases[m_] for a in flat_):
+                continue
+            if isinstance(x.func, ast.Attribute) and x.func.attr in ("items", "keys", "values", "get", "append", "add", "insert", "update", "setdefault", "extend"):
+                continue
+            if isinstance(x.func, ast.Name) and x.func.id in ("dict", "list", "set", "tuple", "len", "bool", "sorted", "isinstance"):
+                continue
+            callee = helper_of(x)
+            if callee is not None and used_params(callee) is not None:
+                continue
+            return x
+        return None
+
+    if bad is not None:
+        lost = next((e_ for e_ in (escapes(m_) for m_ in bad[1]) if e_ is not None), None)
+        if lost is not None:
+            res.undecide("C05.R2", construct, f"the regex conversion `{', '.join(bad[1])}` is handed to `{norm(lost, 60)}`, whose result was not related to its arguments: whether it reaches the map given to the layer matcher is not known", where(match, match.node))
+            return
     if bad is None:
         res.add("C05.R2", construct, True, f"the conversion map handed to the layer matcher is built from {len(maps)} regex conversion(s) on every path", where(match, match.node), kind="flow")
     else:
